@@ -318,15 +318,12 @@ Definition update_existing (w : world) (f : N) (p : props) (kind : bool) : optio
             | Some _ => w1 <- untrack_object w old_region f ;; Some (w1, false)
             | None => Some (w, false)
             end
-          else if negb (old_lid =? new_lid) then
-            match old_rs with
-            | None => None             (* old_region_state.untrack_object on None: AttributeError *)
-            | Some _ =>
-              w1 <- untrack_object w old_region f ;;
-              o1 <- get_obj w1 f ;;
-              w2 <- track_object (set_obj w1 (with_lid o1 new_lid)) old_region f ;;
-              Some (w2, true)
-            end
+          else if negb (old_lid =? new_lid) && is_some old_rs then
+            (* elif old_local_id != new_local_id and old_region_state is not None *)
+            w1 <- untrack_object w old_region f ;;
+            o1 <- get_obj w1 f ;;
+            w2 <- track_object (set_obj w1 (with_lid o1 new_lid)) old_region f ;;
+            Some (w2, true)
           else Some (w, false)) ;;
   let '(w1, ch0) := st1 in
   o1 <- get_obj w1 f ;;
@@ -339,11 +336,9 @@ Definition update_existing (w : world) (f : N) (p : props) (kind : bool) : optio
            | Some _ => track_object w2 new_region f
            | None => Some w2           (* regionless object stays in the global lookup *)
            end
-         else if negb (new_parent =? old_parent) then
-           match new_rs with
-           | None => None              (* new_region_state.handle_object_reparented on None: AttributeError *)
-           | Some _ => handle_object_reparented w2 new_region f old_parent
-           end
+         else if negb (new_parent =? old_parent) && is_some new_rs then
+           (* elif new_parent_id != old_parent_id and new_region_state is not None *)
+           handle_object_reparented w2 new_region f old_parent
          else Some w2) ;;
   (* hooks *)
   if changed && is_some new_rs then
@@ -376,6 +371,17 @@ Fixpoint kill_children (killf : world -> N -> option world) (r : N) (ids : list 
     end
   end.
 
+(* for child_id in child_ids: if child is an avatar: region_state._track_orphan(child_id, local_id) *)
+Fixpoint retrack_avatars (w : world) (r l : N) (ids : list N) (rs : rstate) : rstate :=
+  match ids with
+  | [] => rs
+  | c :: t =>
+    match lookup_local w r c with
+    | Some co => if o_av co then retrack_avatars w r l t (track_orphan rs c l) else retrack_avatars w r l t rs
+    | None => retrack_avatars w r l t rs
+    end
+  end.
+
 (* _kill_object_by_local_id(region_state, local_id); fuel bounds the recursion depth *)
 Fixpoint kill (fuel : nat) (w : world) (r l : N) {struct fuel} : option world :=
   match fuel with
@@ -392,7 +398,8 @@ Fixpoint kill (fuel : nat) (w : world) (r l : N) {struct fuel} : option world :=
       let w2 := cancel_futures w1 r l in
       rs2 <- get_rs w2 r ;;
       let '(ch, rs3) := collect_orphans rs2 l in
-      kill_children (fun w c => kill n w r c) r (rev ch) (set_rs w2 r rs3)
+      (* avatars are skipped by the cascade below: they stay in the orphanage of l *)
+      kill_children (fun w c => kill n w r c) r (rev ch) (set_rs w2 r (retrack_avatars w2 r l ch rs3))
     end
   end.
 
